@@ -297,6 +297,8 @@ pub struct RunResult {
     pub events: Vec<Value>,
     pub choices: Vec<(Vec<usize>, usize)>, // enabled set, chosen
     pub blocked: bool,
+    /// the directory as decoded after the last scheduling step
+    pub last_disk: Value,
 }
 
 /// Execute one schedule on a fresh store. `prefix` = forced thread choices; afterwards `policy`.
@@ -426,6 +428,7 @@ pub fn run_schedule<K: HKey>(
     let mut last: Option<usize> = None;
     let mut blocked = false;
     let mut reported = vec![0usize; n];
+    let mut last_disk: Option<Value> = None;
     loop {
         let status = sched.status();
         if status.iter().all(|s| *s == Status::Done) {
@@ -497,8 +500,17 @@ pub fn run_schedule<K: HKey>(
                 }
             }
         }
-        events.push(json!({"ev": "step", "t": chosen + 1, "at": at, "to": to, "rets": rets,
-                           "obs": snapshot(&cas, &u, &root, &names)}));
+        // the decoded directory is recorded when it differs from the one recorded last (most steps are lock
+        // acquisitions and change nothing on disk); the value at the end of the run is kept for the `end` line
+        let mut obs = snapshot(&cas, &u, &root, &names);
+        let disk = obs["disk"].take();
+        if last_disk.as_ref() != Some(&disk) {
+            obs["disk"] = disk.clone();
+            last_disk = Some(disk);
+        } else {
+            obs.as_object_mut().unwrap().remove("disk");
+        }
+        events.push(json!({"ev": "step", "t": chosen + 1, "at": at, "to": to, "rets": rets, "obs": obs}));
         if choices.len() > 400 {
             break;
         }
@@ -551,7 +563,7 @@ pub fn run_schedule<K: HKey>(
         drop(cas);
     }
     crate::shim::uninstall();
-    RunResult { events, choices, blocked }
+    RunResult { events, choices, blocked, last_disk: last_disk.unwrap_or(json!({})) }
 }
 
 fn preemptions(choices: &[(Vec<usize>, usize)], upto: usize, alt: usize) -> usize {
@@ -586,7 +598,7 @@ pub fn run_conc_scenario<K: HKey>(sc: &Value, scratch: &Path, out: &mut Out) {
         for e in &r.events {
             out.emit(e);
         }
-        out.emit(&json!({"ev": "end", "blocked": r.blocked}));
+        out.emit(&json!({"ev": "end", "blocked": r.blocked, "disk": r.last_disk}));
     };
     match kind {
         "forced" => {
